@@ -231,6 +231,7 @@ void run(Src &src, Case &c)
     const bool rawKeysWanted = src.flip(40);
     C06Options fo;
     fo.allowIds = true;
+    fo.libsParsed = s.mode != 0;
     C06Forest f = c06GenForest(src, fo);
     s.f = &f;
     s.rawKeys = s.mode == 0 && rawKeysWanted && !f.usesSubdir;
